@@ -1,4 +1,5 @@
 """Loader and graph queries for the JSON produced by tools/ir2json from clang -O0 + mem2reg IR."""
+import copy
 import json
 import os
 
@@ -313,12 +314,182 @@ class Module:
         return None
 
 
-def load_modules(units):
-    """units: build units with an 'ir' artefact -> {src: Module}"""
+_KNOWN_HELPERS = None
+
+
+def known_helpers():
+    """Names of the static functions of the tree the rules were written against (tables/ir_known_helpers.json).
+    Rules name some of them (hash_pad, hash_init_digest, *_ctx_mgr_resubmit ...) and treat the others as opaque
+    calls; any *other* small static helper is inlined before analysis, so that extracting a helper function
+    (the most common behaviour-preserving edit) does not change what the path rules see."""
+    global _KNOWN_HELPERS
+    if _KNOWN_HELPERS is None:
+        p = os.path.join(os.path.dirname(os.path.dirname(os.path.abspath(__file__))), "tables", "ir_known_helpers.json")
+        try:
+            with open(p) as fh:
+                _KNOWN_HELPERS = set(json.load(fh)["names"])
+        except (OSError, ValueError, KeyError):
+            _KNOWN_HELPERS = set()
+    return _KNOWN_HELPERS
+
+
+def _acyclic(raw):
+    succ = {b["id"]: b["succ"] for b in raw["blocks"]}
+    color = {}
+    stack = [(raw["blocks"][0]["id"], iter(succ[raw["blocks"][0]["id"]]))]
+    color[raw["blocks"][0]["id"]] = 1
+    while stack:
+        b, it = stack[-1]
+        nxt = next(it, None)
+        if nxt is None:
+            color[b] = 2
+            stack.pop()
+            continue
+        c = color.get(nxt)
+        if c == 1:
+            return False
+        if c is None:
+            color[nxt] = 1
+            stack.append((nxt, iter(succ[nxt])))
+    return True
+
+
+def _remap_ref(r, imap, bmap, args):
+    if not isinstance(r, dict):
+        return r
+    k = r.get("k")
+    if k == "i":
+        return {"k": "i", "id": imap[r["id"]]} if r["id"] in imap else r
+    if k == "b":
+        return {"k": "b", "id": bmap[r["id"]]}
+    if k == "a":
+        return copy.deepcopy(args[r["n"]]) if r["n"] < len(args) else r
+    if k == "ce":
+        out = dict(r)
+        out["ops"] = [_remap_ref(o, imap, bmap, args) for o in r.get("ops", [])]
+        return out
+    return r
+
+
+def inline_call(raw, bidx, iidx, graw):
+    """Splice a copy of callee `graw` (raw function dict) in place of the call instruction raw.blocks[bidx].insts[iidx]."""
+    blocks = raw["blocks"]
+    B = blocks[bidx]
+    call = B["insts"][iidx]
+    next_i = max(i["id"] for b in blocks for i in b["insts"]) + 1
+    next_b = max(b["id"] for b in blocks) + 1
+    imap = {}
+    bmap = {}
+    for gb in graw["blocks"]:
+        bmap[gb["id"]] = next_b
+        next_b += 1
+        for gi in gb["insts"]:
+            imap[gi["id"]] = next_i
+            next_i += 1
+    cont_id = next_b
+    next_b += 1
+    nargs = call.get("nargs", len(call.get("ops", [])) - 1)
+    args = call.get("ops", [])[:nargs]
+    rets = []
+    newblocks = []
+    for gb in graw["blocks"]:
+        nb = {"id": bmap[gb["id"]], "name": "inl.%s.%s" % (graw["name"], gb.get("name", "")), "succ": [bmap[s] for s in gb["succ"]], "insts": []}
+        for gi in gb["insts"]:
+            ni = copy.deepcopy(gi)
+            ni["id"] = imap[gi["id"]]
+            ni["inlined_from"] = graw["name"]
+            if "ops" in ni:
+                ni["ops"] = [_remap_ref(o, imap, bmap, args) for o in ni["ops"]]
+            if ni.get("incoming"):
+                ni["incoming"] = [{"b": bmap[x["b"]], "v": _remap_ref(x["v"], imap, bmap, args)} for x in ni["incoming"]]
+            if "succ" in ni:
+                ni["succ"] = [bmap[x] for x in ni["succ"]]
+            if "cases" in ni:
+                ni["cases"] = [{"v": c["v"], "b": bmap[c["b"]]} for c in ni["cases"]]
+            if "default" in ni and ni["default"] is not None:
+                ni["default"] = bmap[ni["default"]]
+            if ni["op"] == "ret":
+                rets.append((nb["id"], ni["ops"][0] if ni.get("ops") else None))
+                ni = {"id": ni["id"], "op": "br", "cond": False, "ops": [{"k": "b", "id": cont_id}], "succ": [cont_id], "ty": "void", "file": ni.get("file"), "line": ni.get("line"), "inlined_from": graw["name"]}
+                nb["succ"] = [cont_id]
+            nb["insts"].append(ni)
+        newblocks.append(nb)
+    cont = {"id": cont_id, "name": "inl.cont." + graw["name"], "succ": list(B["succ"]), "insts": []}
+    if call.get("ty") not in (None, "void") and rets:
+        cont["insts"].append({"id": call["id"], "op": "phi", "ty": call.get("ty"), "file": call.get("file"), "line": call.get("line"),
+                              "incoming": [{"b": b, "v": v} for (b, v) in rets if v is not None], "inlined_from": graw["name"]})
+    cont["insts"] += B["insts"][iidx + 1:]
+    entry_new = bmap[graw["blocks"][0]["id"]]
+    B["insts"] = B["insts"][:iidx] + [{"id": next_i, "op": "br", "cond": False, "ops": [{"k": "b", "id": entry_new}], "succ": [entry_new], "ty": "void", "file": call.get("file"), "line": call.get("line")}]
+    old_succ = list(B["succ"])
+    B["succ"] = [entry_new]
+    # phis of the old successors now come from the continuation block
+    for sb in blocks:
+        if sb["id"] in old_succ:
+            for i in sb["insts"]:
+                if i.get("incoming"):
+                    for x in i["incoming"]:
+                        if x["b"] == B["id"]:
+                            x["b"] = cont_id
+    # a phi inside the continuation that names B (self loop through B) cannot exist: B's tail moved as a whole
+    blocks.extend(newblocks)
+    blocks.append(cont)
+
+
+def inline_new_helpers(M, max_blocks=60, budget=64):
+    """Inline, into every defined function of module M, calls to static functions of the same unit that are not
+    in the frozen helper table, are loop-free and small.  Returns the list of (caller, callee) pairs inlined."""
+    known = known_helpers()
+    done = []
+    raws = {f["name"]: f for f in M.raw["functions"]}
+
+    def candidate(name, caller):
+        g = raws.get(name)
+        if g is None or g.get("decl") or not g.get("local") or name in known or name == caller:
+            return None
+        if len(g["blocks"]) > max_blocks or not _acyclic(g):
+            return None
+        for b in g["blocks"]:
+            for i in b["insts"]:
+                if i["op"] == "call" and i.get("callee") == name:
+                    return None
+        return g
+    for f in M.raw["functions"]:
+        if f.get("decl"):
+            continue
+        n = 0
+        changed = True
+        while changed and n < budget:
+            changed = False
+            for bi, b in enumerate(f["blocks"]):
+                for ii, i in enumerate(b["insts"]):
+                    if i["op"] == "call" and i.get("callee"):
+                        g = candidate(i["callee"], f["name"])
+                        if g is not None:
+                            inline_call(f, bi, ii, g)
+                            done.append((f["name"], g["name"]))
+                            n += 1
+                            changed = True
+                            break
+                if changed:
+                    break
+        if n:
+            M.functions[f["name"]] = Function(f, M)
+    M.inlined = done
+    return done
+
+
+def load_modules(units, inline=True):
+    """units: build units with an 'ir' artefact -> {src: Module}.  Small static helpers that are not part of the
+    frozen helper table are inlined (see known_helpers)."""
     mods = {}
     for u in units:
         if u.get("ir"):
-            mods[u["src"]] = Module(u["ir"], u)
+            M = Module(u["ir"], u)
+            M.inlined = []
+            if inline:
+                inline_new_helpers(M)
+            mods[u["src"]] = M
     return mods
 
 
@@ -547,6 +718,13 @@ class PathInfo:
             if pred not in ("eq", "ne") or not isinstance(c, int):
                 continue
             r = self.at(F, val, k)
+            rc = r if isinstance(r, int) else (r.get("v") if isinstance(r, dict) and r.get("k") == "c" and isinstance(r.get("v"), int) else None)
+            if rc is not None:
+                # the value is a constant on this path (a phi fed by the edges taken): the fact must agree with it
+                same = (rc - c) % (1 << 64) == 0 or (rc - c) % (1 << 32) == 0
+                if (pred == "eq") != same:
+                    return True
+                continue
             if isinstance(r, Inst) and r.op in ("load", "call"):
                 # memory / call results may change between two evaluations of the same instruction in a loop
                 r = (r.id, k if self.blocks.count(self.blocks[k]) > 1 else -1, "dyn")
